@@ -482,6 +482,13 @@ def bad_encodings(rng):
     out.append(bytes([rng.choice([2, 3])]) + ec.b32(P + rng.randrange(2**256 - P)))  # x >= p
     out.append(bytes([rng.choice([2, 3])]) + ec.b32(P))
     out.append(bytes([rng.choice([2, 3])]) + ec.b32(no_sqrt_x(rng)))  # no sqrt
+    # x = 0 and the other small x with no square root, under both parities (x = 0 is the value an x-only
+    # decoder may map to infinity: as a compressed key it is not a point)
+    for x in [0] + [x for x in range(1, 12) if ec.lift_x(x) is None][:2]:
+        for pre in (2, 3):
+            out.append(bytes([pre]) + ec.b32(x))
+    out.append(b"\x04" + ec.b32(0) + ec.b32(0))
+    out.append(b"\x04" + ec.b32(0) + yb)
     out.append(b"\x04" + xb + ec.b32((good[1] + 1) % P))  # off curve
     out.append(b"\x04" + ec.b32(no_sqrt_x(rng)) + yb)
     out.append(b"\x04" + ec.b32(P + 1) + yb)
